@@ -58,9 +58,8 @@ structure Frame where
   dsts : List Nat
 
 structure Mem where
+  /-- cells; the payload of a tagged (interface) object lives at the paths `CSel.pay :: …` -/
   heap : Obj → List CSel → Val
-  /-- payload of tagged (interface) objects -/
-  payload : Obj → Val
   /-- captured values of closure objects -/
   env : Obj → List Val
 
@@ -77,8 +76,9 @@ def Frame.setMany (fr : Frame) (rs : List Nat) (vs : List Val) : Frame :=
 def Mem.setHeap (m : Mem) (o : Obj) (q : List CSel) (v : Val) : Mem :=
   { m with heap := fun o' q' => if o' = o ∧ q' = q then v else m.heap o' q' }
 
-def Mem.setPayload (m : Mem) (o : Obj) (v : Val) : Mem :=
-  { m with payload := fun o' => if o' = o then v else m.payload o' }
+def Mem.setHeapMany (m : Mem) (o : Obj) : List (List CSel × Val) → Mem
+  | [] => m
+  | c :: cs => (m.setHeap o c.1 c.2).setHeapMany o cs
 
 def Mem.setEnv (m : Mem) (o : Obj) (vs : List Val) : Mem :=
   { m with env := fun o' => if o' = o then vs else m.env o' }
@@ -92,10 +92,14 @@ def eval (fr : Frame) : Opnd → Val
   | .const => .nil
 
 /-- the concrete cell designated by pointer path `p` and selector `s` -/
-def Ext (p : List CSel) (s : Option ASel) (q : List CSel) : Prop :=
-  match s with
-  | none => q = p
-  | some a => ∃ cs : CSel, cs.abs = a ∧ q = p ++ [cs]
+def Ext (p : List CSel) (s : List ASel) (q : List CSel) : Prop :=
+  ∃ cs : List CSel, absPath cs = s ∧ q = p ++ cs
+
+/-- the cells written by a MakeInterface: one per pointer-like part of the payload -/
+def PayCells (fr : Frame) : List (List ASel × Opnd) → List (List CSel × Val) → Prop
+  | [], [] => True
+  | py :: pay, c :: cells => (∃ cs, absPath cs = py.1 ∧ c.1 = CSel.pay :: cs) ∧ c.2 = eval fr py.2 ∧ PayCells fr pay cells
+  | _, _ => False
 
 /-- a call event: (caller function, call-site id, callee function) -/
 abbrev Event := Nat × Nat × Nat
@@ -116,27 +120,32 @@ inductive Resolve (P : Prog) (fr : Frame) (m : Mem) (args : List Opnd) : Callee 
   | func (x : Opnd) (g : Nat) : eval fr x = .fn g → Resolve P fr m args (.dyn x) g [] (args.map (eval fr))
   | closure (x : Opnd) (o : Obj) (g : Nat) : eval fr x = .ptr o [] → o.site = Site.fn g →
       Resolve P fr m args (.dyn x) g (m.env o) (args.map (eval fr))
-  | invoke (x : Opnd) (mth : Nat) (o : Obj) (n t g : Nat) : eval fr x = .ptr o [] → o.site = Site.iface n t →
-      P.method t mth = some g → Resolve P fr m args (.invoke x mth) g [] (m.payload o :: args.map (eval fr))
+  | invoke (x : Opnd) (mth : Nat) (o : Obj) (n t g : Nat) (paths : List (List ASel)) (cells : List (List CSel)) :
+      eval fr x = .ptr o [] → o.site = Site.iface n t →
+      P.method t mth = some (g, paths) → cells.map absPath = paths →
+      Resolve P fr m args (.invoke x mth) g []
+        ((cells.map fun cs => m.heap o (CSel.pay :: cs)) ++ args.map (eval fr))
 
 inductive Exec (P : Prog) (fr : Frame) (m : Mem) : Instr → Out → Prop
   | alloc (r n id : Nat) : Exec P fr m (.alloc r n) (.next (fr.set r (.ptr ⟨id, Site.alloc n⟩ [])) m)
   | copy (r : Nat) (x : Opnd) : Exec P fr m (.copy r x) (.next (fr.set r (eval fr x)) m)
   | addr (r : Nat) (x : Opnd) (s : ASel) (o : Obj) (p : List CSel) (cs : CSel) :
       eval fr x = .ptr o p → cs.abs = s → Exec P fr m (.addr r x s) (.next (fr.set r (.ptr o (p ++ [cs]))) m)
-  | load (r : Nat) (x : Opnd) (s : Option ASel) (o : Obj) (p q : List CSel) :
+  | load (r : Nat) (x : Opnd) (s : List ASel) (o : Obj) (p q : List CSel) :
       eval fr x = .ptr o p → Ext p s q → Exec P fr m (.load r x s) (.next (fr.set r (m.heap o q)) m)
-  | store (x : Opnd) (s : Option ASel) (v : Opnd) (o : Obj) (p q : List CSel) :
+  | store (x : Opnd) (s : List ASel) (v : Opnd) (o : Obj) (p q : List CSel) :
       eval fr x = .ptr o p → Ext p s q → Exec P fr m (.store x s v) (.next fr (m.setHeap o q (eval fr v)))
-  | hcopy (x : Opnd) (sx : ASel) (y : Opnd) (sy : ASel) (only : Option Site) (o o' : Obj) (p p' q q' : List CSel) :
-      eval fr x = .ptr o p → eval fr y = .ptr o' p' → Ext p (some sx) q → Ext p' (some sy) q' →
+  | hcopy (x : Opnd) (sx : List ASel) (y : Opnd) (sy : List ASel) (only : Option Site) (o o' : Obj) (p p' q q' : List CSel) :
+      eval fr x = .ptr o p → eval fr y = .ptr o' p' → Ext p sx q → Ext p' sy q' →
       (∀ st, only = some st → o.site = st) →
       Exec P fr m (.hcopy x sx y sy only) (.next fr (m.setHeap o q (m.heap o' q')))
-  | mkiface (r n t : Nat) (x : Opnd) (id : Nat) :
-      Exec P fr m (.mkiface r n t x)
-        (.next (fr.set r (.ptr ⟨id, Site.iface n t⟩ [])) (m.setPayload ⟨id, Site.iface n t⟩ (eval fr x)))
-  | tassert (r : Nat) (x : Opnd) (t : Nat) (o : Obj) (n : Nat) :
-      eval fr x = .ptr o [] → o.site = Site.iface n t → Exec P fr m (.tassert r x t) (.next (fr.set r (m.payload o)) m)
+  | mkiface (r n t : Nat) (pay : List (List ASel × Opnd)) (id : Nat) (cells : List (List CSel × Val)) :
+      PayCells fr pay cells →
+      Exec P fr m (.mkiface r n t pay)
+        (.next (fr.set r (.ptr ⟨id, Site.iface n t⟩ [])) (m.setHeapMany ⟨id, Site.iface n t⟩ cells))
+  | tassert (r : Nat) (x : Opnd) (t : Nat) (π : List ASel) (o : Obj) (n : Nat) (cs : List CSel) :
+      eval fr x = .ptr o [] → o.site = Site.iface n t → absPath cs = π →
+      Exec P fr m (.tassert r x t π) (.next (fr.set r (m.heap o (CSel.pay :: cs))) m)
   | tfilter (r : Nat) (x : Opnd) (ts : List Nat) (o : Obj) (n t : Nat) :
       eval fr x = .ptr o [] → o.site = Site.iface n t → t ∈ ts → Exec P fr m (.tfilter r x ts) (.next (fr.set r (.ptr o [])) m)
   | mkclosure (r g : Nat) (bs : List Opnd) (id : Nat) :
@@ -173,7 +182,7 @@ inductive Step (P : Prog) : State → Option Event → State → Prop
       TStep P stk m ev stk' m' sp →
       Step P ⟨pre ++ stk :: post, m⟩ ev ⟨pre ++ stk' :: post ++ (sp.toList.map fun f => [f]), m'⟩
 
-def emptyMem : Mem := ⟨fun _ _ => .nil, fun _ => .nil, fun _ => []⟩
+def emptyMem : Mem := ⟨fun _ _ => .nil, fun _ => []⟩
 
 /-- initial states: one thread per root function (`init`, `main`; running them concurrently includes
 running them one after the other), empty registers, empty memory -/
